@@ -817,3 +817,8 @@ canary('c13-borrowed-cmp-self', 'C13', 'crates/erltf/src/borrowed.rs', "a.serial
 canary('c13-borrowed-cmp-no-serial', 'C13', 'crates/erltf/src/borrowed.rs', "                    .then_with(|| a.id.cmp(&b.id))\n                    .then_with(|| a.serial.cmp(&b.serial))\n",
        "                    .then_with(|| a.id.cmp(&b.id))\n", 'TWIN:order-fields')
 canary('c11-cmp-wrong-field', 'C11', 'crates/erltf/src/term.rs', "a.serial.cmp(&b.serial)", "a.serial.cmp(&b.creation)", 'CMPFIELDS')
+canary('c14-long-atoms-by-chars', 'C14', ENCF, "let long_atoms = atoms.iter().any(|a| a.name.len() > 255);", "let long_atoms = atoms.iter().any(|a| a.name.chars().count() > 255);", 'PREMISE')
+canary('c01-long-atoms-by-chars', 'C01', ENCF, "let long_atoms = atoms.iter().any(|a| a.name.len() > 255);", "let long_atoms = atoms.iter().any(|a| a.name.chars().count() > 255);", 'PREMISE')
+canary('c14-too-many-atoms-256', 'C14', ENCF, "    if atom_set.len() > 255 {", "    if atom_set.len() > 256 {", 'PREMISE')
+canary('c14-scratch-cache-dropped', 'C14', DEC, "    let (remaining, term) = parse_versioned_term_with_cache(data, cache).map_err(from_nom_error)?;",
+       "    let mut scratch = cache.clone();\n    let (remaining, term) = parse_versioned_term_with_cache(data, &mut scratch).map_err(from_nom_error)?;", 'cache-copy-not-written-back')
